@@ -53,6 +53,11 @@ absent) -/
 def NoDirOverSymlink (pre : Fs) (es : List Entry) : Prop :=
   ∀ e ∈ es, e.isDir = true → ¬ ∃ i nd, pre.view e.loc = some (i, nd) ∧ ∃ t, nd.kind = .sym t
 
+/-- well-formedness: the root of the tree is not itself a non-directory entry -/
+def NonDirsBelowRoot (es : List Entry) : Prop := ∀ e ∈ es, e.isDir = false → e.loc ≠ []
+
+instance (es : List Entry) : Decidable (NonDirsBelowRoot es) := by unfold NonDirsBelowRoot; infer_instance
+
 /-- what holds without that guard: the location of such a directory entry may in addition be absent or hold a
 directory that is still being set up -/
 def WindowAt (pre : Fs) (es : List Entry) (q : Path) (v : Option (Nat × Inode)) : Prop :=
